@@ -15,6 +15,7 @@ mod c05_link;
 mod c06_arp;
 mod c13_barrier;
 mod c04_udp;
+mod c02_sockets;
 mod ndl;
 mod tcb_bench;
 mod tcb_checks;
@@ -44,6 +45,7 @@ fn parts_for(id: &str) -> Option<Vec<Part>> {
         "C10" => vec![part(c10_fragment::Fragmentation, 150_000, 3_000_000)],
         "C11" => vec![part(c11_reassembly::ReassemblyHistories, 100_000, 2_000_000)],
         "C01" => vec![part(tcb_checks::ReliableStream, 40_000, 3_000_000)],
+        "C02" => vec![part(c02_sockets::StreamSockets { multi_thread: false }, 20_000, 600_000), part(c02_sockets::StreamSockets { multi_thread: true }, 640, 20_000)],
         "C03" => vec![part(tcb_checks::OpenClose, 40_000, 3_000_000)],
         "C12" => vec![part(c12_modcmp::ModCmpLaws, 200_000, 4_000_000), part(tcb_checks::IsnIndependence, 20_000, 1_500_000)],
         "C17" => vec![part(tcb_checks::HostileSegments, 60_000, 4_000_000)],
